@@ -82,6 +82,27 @@ def regen_checkorder(bindir):
     return True, new
 
 
+def regen_search(bindir):
+    """int32.go … comparable.go -> Generated/SearchGen.lean (rewritten only when it differs).
+    Returns (ok, reason): not ok means the searches are written outside the translator's grammar."""
+    target = os.path.join(LEAN, "Gobptree", "Generated", "SearchGen.lean")
+    r = run([os.path.join(bindir, "gen_search"), REPO], stderr=subprocess.PIPE)
+    if r.returncode != 0:
+        return False, ((r.stderr or "") + (r.stdout or "")).strip()[-300:]
+    new = r.stdout
+    old = open(target).read() if os.path.exists(target) else None
+    if new != old:
+        os.makedirs(os.path.dirname(target), exist_ok=True)
+        with open(target + ".tmp", "w") as f:
+            f.write(new)
+        os.replace(target + ".tmp", target)
+    return True, "translated"
+
+
+def extras(pid):
+    return [e for e in EXTRA_PROPS.get(pid, []) if e not in DISABLED_EXTRAS]
+
+
 def lake_build(targets):
     r = run(["lake", "build"] + targets, cwd=LEAN)
     return r.returncode == 0, r.stdout
@@ -129,7 +150,7 @@ def grep_forbidden(pid=None):
     built from (the import closure of Props.<pid>, Main, CMain).  A work file that nothing imports
     is not part of any proof and is not looked at (it caused a false alarm twice, DESIGN 14.5)."""
     hits = []
-    roots = ["Main", "CMain"] + (["Gobptree.Props." + pid] + ["Gobptree.Props." + e for e in EXTRA_PROPS.get(pid, [])] if pid else
+    roots = ["Main", "CMain"] + (["Gobptree.Props." + pid] + ["Gobptree.Props." + e for e in extras(pid)] if pid else
                                  ["Gobptree.Props.C%02d" % i for i in range(1, 13)])
     for rel in import_closure(roots):
         p = os.path.join(LEAN, rel)
@@ -141,14 +162,19 @@ def grep_forbidden(pid=None):
 
 
 # further Props modules of a property (theorems whose proofs import Props/<pid>.lean itself)
-EXTRA_PROPS = {"C10": ["C10Log"], "C02": ["C02Conc"], "C08": ["C08Bridge"]}
+EXTRA_PROPS = {"C10": ["C10Log"], "C02": ["C02Conc"], "C08": ["C08Bridge"], "C11": ["C11Search"]}
+# extra modules left out of THIS run, with the reason (C11Search: the theorems are about the
+# regenerated searches; when the translator cannot read the current sources there is nothing to
+# state them about and the searches are tied to the model by the correspondence check alone)
+DISABLED_EXTRAS = {}
+SEARCH_TRANSLATOR = None
 
 
 def audit_props(pid):
     """Elaborates Props/<pid>.lean (and its extra modules) and parses the `#print axioms` output.
     Returns dict(theorems={name: [axioms]}, ok=bool, log=str)."""
     res = audit_props1(pid)
-    for extra in EXTRA_PROPS.get(pid, []):
+    for extra in extras(pid):
         r2 = audit_props1(extra)
         res["theorems"].update(r2["theorems"])
         res["ok"] = res["ok"] and r2["ok"]
@@ -186,7 +212,17 @@ def proof_step(pid, bindir, extra_targets=()):
             target = os.path.join(LEAN, "Gobptree", "Generated", "CheckOrder.lean")
             if not os.path.exists(target):
                 shutil.copy(os.path.join(LEAN, "Gobptree", "Generated", "CheckOrder.default"), target)
-        ok, log = lake_build(["Gobptree.Props." + pid, "model", "cmodel"] + ["Gobptree.Props." + e for e in EXTRA_PROPS.get(pid, [])] + list(extra_targets))
+        if "C11Search" in EXTRA_PROPS.get(pid, []):
+            global SEARCH_TRANSLATOR
+            ok, why = regen_search(bindir)
+            if ok:
+                DISABLED_EXTRAS.pop("C11Search", None)
+                SEARCH_TRANSLATOR = "translated the 12 search functions of the current sources; Props/C11Search.lean is about them"
+            else:
+                DISABLED_EXTRAS["C11Search"] = why
+                SEARCH_TRANSLATOR = "NOT APPLICABLE to the current sources (%s): searches tied by the correspondence check only" % why
+                print("NOTE: property=%s search translator not applicable: %s" % (pid, why))
+        ok, log = lake_build(["Gobptree.Props." + pid, "model", "cmodel"] + ["Gobptree.Props." + e for e in extras(pid)] + list(extra_targets))
         if not ok:
             errs = [l for l in log.splitlines() if "error" in l][:12]
             problems.append("lake build failed for Props." + pid + ": " + " | ".join(errs))
@@ -194,7 +230,7 @@ def proof_step(pid, bindir, extra_targets=()):
         aud = audit_props(pid)
         # thorough tier: Lean's independent re-checker replays the compiled proofs of the property's module(s)
         if os.environ.get("VERIF_TIER_RUN") == "thorough":
-            for mod in [pid] + EXTRA_PROPS.get(pid, []):
+            for mod in [pid] + extras(pid):
                 r = run(["lake", "env", "leanchecker", "Gobptree.Props." + mod], cwd=LEAN)
                 if r.returncode != 0:
                     problems.append("leanchecker rejects Gobptree.Props.%s: %s" % (mod, r.stdout[-400:]))
@@ -418,6 +454,8 @@ def write_evidence(pid, tier, level, coverage, wall, violations, assumptions):
         coverage["explanation"] = EXPLANATIONS[pid]
     if LAST_LEANCHECKER:
         coverage["leanchecker_rechecked_modules"] = list(LAST_LEANCHECKER)
+    if SEARCH_TRANSLATOR and pid in ("C11",):
+        coverage["search_translator"] = SEARCH_TRANSLATOR
     # evidence/ describes runs against /repo only; a run against another tree (seed-verify's
     # scratch worktree, VERIF_REPO) writes to evidence-scratch/ (git-ignored)
     evdir = "evidence" if os.path.realpath(REPO) == "/repo" else "evidence-scratch"
